@@ -67,7 +67,9 @@ PY_EXN = {
 PURE_FUNCS = {"isinstance", "issubclass", "len", "tuple", "set", "type", "reversed", "get_args", "dict", "list",
               "contextlib.nullcontext", "etree.XMLParser", "bool", "enumerate", "zip"}
 FMT_FUNCS = {"str", "repr", "pprint.pformat"}
-PURE_METHODS = {"find", "items", "get", "split", "values", "join", "keys", "startswith", "zfill", "getroot"}
+# str.strip/lstrip/rstrip/lower/upper/endswith raise nothing on str receivers (validated by the event correspondence)
+PURE_METHODS = {"find", "items", "get", "split", "values", "join", "keys", "startswith", "endswith", "zfill", "getroot",
+                "strip", "lstrip", "rstrip", "lower", "upper"}
 FMT_METHODS = {"format"}
 LOG_METHODS = {"error", "warning", "info", "debug"}
 ADD_METHODS = {"add", "append", "extend"}
